@@ -163,6 +163,9 @@ class Body:
     def ty(self, local):
         x = self.locals[local]
         return x if isinstance(x, str) else x.get("ty", "")
+    def ty_is(self, local, name):
+        """type of `local` mentions the type `name` as a whole identifier (MReply does not count as Reply)"""
+        return bool(re.search(r"(?<![A-Za-z0-9_])%s(?![A-Za-z0-9_])" % re.escape(name), self.ty(local)))
     def name_of(self, local):
         """source name(s) of a local (whole-local debug entries only)"""
         return [n for n, p in self.debug if p is not None and p.l == local and not p.p]
